@@ -626,9 +626,35 @@ def check_assembly(fx, rep, rule, name, conv_name):
         rep.check(rule, "%s/%s/closures" % (rule, name), okl, loc=F.short_file(b["sp"]), found=desc_l,
                   expected="per token: skipped if empty, pushed if convert(token, mapping) is Some, dropped otherwise; nothing else")
         return
-    bad, n = fc.compare_paths(res, ref, lambda st, out: fc.rewrite(out[1], rw), rw=rw)
+    # `filter_map(|p| if p.is_empty() { None } else { convert(p, recv) })`: filter and filter_map fused into one closure
+    fused = []
+
+    def unfuse(t):
+        if t[0] == "call" and t[1] == "std::iter::Iterator::filter_map" and len(t[2]) == 2 and t[2][0] == types and t[2][1][0] == "closure":
+            try:
+                cps = sy.apply(t[2][1], [("bound", 0)], S.St(), {"sp": "?"})
+            except S.Undecidable:
+                return None
+            got = set()
+            for st_, (k_, v_) in cps:
+                if st_.effects:
+                    return None
+                a_ = fc.assignment(st_.conds)
+                e_ = a_.get(("empty", ("bound", 0)))
+                if e_ is None or len(a_) != 1:
+                    return None
+                got.add((e_, v_))
+            if got == {(True, NONE), (False, call(CV, ("bound", 0), recv))}:
+                fused.append(t[2][1])
+                return call("std::iter::Iterator::filter_map", call("std::iter::Iterator::filter", types, ("closure#",)), ("closure#",))
+        return None
+    bad, n = fc.compare_paths(res, ref, lambda st, out: fc.rewrite(fc.rewrite(out[1], unfuse), rw), rw=rw)
     R1.report_cmp(rep, rule, "%s/%s/assembly" % (rule, name), b, res, bad,
                   "split?; parameters = types.filter(non-empty).filter_map(convert).collect(); return = convert(ret)?")
+    if fused and not clos:
+        rep.ok(rule, "%s/%s/closures" % (rule, name), loc=F.short_file(b["sp"]),
+               found="one filter_map closure: None for an empty token, convert(token, mapping) otherwise")
+        return
     # the two closures: |p| !p.is_empty() and |p| convert(p, recv)
     seen = []
     for c_ in clos:
